@@ -13,3 +13,5 @@ def check(ctx: Ctx) -> None:
     # the reply line is what the command wrote, nothing substituted on the way out (an empty str() stays empty)
     CT.r_listen_loop(ctx, "R17.8")
     CT.r_annotation_kinds(ctx, "R16.3")
+    CT.r_ok_constant(ctx, "R17.9")
+    CT.r_omitted_params(ctx, "R17.10")
